@@ -29,6 +29,10 @@ def rejection_cases(draw, max_n=60, logprobs=False):
         "rng_seed": draw(st.integers(0, 2**32 - 1)),
         "steer": draw(st.sampled_from([None, None, "atoms"])),
         "steer_seed": draw(st.integers(0, 10**6)),
+        # stored units of the library columns (the sampler converts them to day / rad / data unit)
+        "lib_units": draw(st.one_of(st.none(), st.fixed_dictionaries({
+            "P": st.sampled_from(["d", "yr", "h"]), "omega": st.sampled_from(["rad", "deg"]),
+            "M0": st.sampled_from(["rad", "deg"]), "s": st.sampled_from(["km/s", "m/s"])}))),
     }
     if logprobs:
         case["return_logprobs"] = draw(st.booleans())
@@ -92,7 +96,7 @@ def run_rejection(ctx, case, lib=None, lls=None, iterative=None, order_fn=None):
     n = case["n"]
     lls = profile_of(case) if lls is None else lls
     helper = fakes.ScriptedHelper(lls)
-    lib = fakes.scripted_library(n) if lib is None else lib
+    lib = fakes.scripted_library(n, units=case.get("lib_units")) if lib is None else lib
     holder = [None]
     steer = make_steer(case, lls, holder, order_fn)
     rg = SteeringGenerator(np.random.PCG64(case["rng_seed"]), uniforms=[steer] * 200 if steer else None)
@@ -152,12 +156,17 @@ def check_rows(out, lib, rows, n_linear, what="returned"):
     if len(out) != len(want):
         raise Violation("%s table has %d rows, expected %d accepted samples x %d linear draws"
                         % (what, len(out), len(rows), n_linear), rows=list(map(int, rows)))
+    internal = {"P": u.day, "e": u.one, "omega": u.rad, "M0": u.rad, "s": u.km / u.s}
     for nm in ("P", "e", "omega", "M0", "s"):
-        got = np.asarray(out[nm].to_value(lib[nm].unit))
-        exp = np.asarray(lib[nm].value)[want]
-        if not np.array_equal(got, exp):
+        exact = lib[nm].unit == internal[nm]
+        got = np.asarray(out[nm].to_value(internal[nm]))
+        exp = np.asarray(lib[nm].to_value(internal[nm]))[want]
+        # bit-for-bit when the library is stored in the sampler's internal units; otherwise the two paths
+        # convert by different routes (Quantity.to_value vs. value * factor): allow 4 ulp
+        ok = np.array_equal(got, exp) if exact else np.allclose(got, exp, rtol=1e-15 * 4, atol=0)
+        if not ok:
             raise Violation("%s column %s is not the unmodified value of the evaluated prior samples, in evaluation "
-                            "order" % (what, nm), got=got[:12], expected=exp[:12])
+                            "order" % (what, nm), got=got[:12], expected=exp[:12], library_unit=str(lib[nm].unit))
     K = np.asarray(out["K"].to_value(u.km / u.s))
     if not np.array_equal(K, want.astype(float)):
         raise Violation("linear parameters were generated for other rows than the accepted ones",
